@@ -8,6 +8,7 @@ import os, sys, json, time, hashlib, collections, itertools, traceback, io, cont
 
 REPO = os.environ.get("SYSLOSS_REPO", "/repo")
 VERIF = os.path.dirname(os.path.dirname(os.path.abspath(__file__)))
+OUT = os.environ.get("VERIF_OUT", VERIF)  # experiments against scratch worktrees write their evidence elsewhere
 os.environ.setdefault("MPLBACKEND", "Agg")
 os.environ.setdefault("PYTHONHASHSEED", "0")
 # keep BLAS single threaded: we parallelise over cases
@@ -126,7 +127,7 @@ class Run:
         self.replay_fn = replay_fn
         self.harness_errors = []
         import glob
-        for f in glob.glob(os.path.join(VERIF, "replays", "%s-*.json" % prop)):
+        for f in glob.glob(os.path.join(OUT, "replays", "%s-*.json" % prop)):
             os.remove(f)
 
     # -- exhaustive map over a case iterator ----------------------------------------------------
@@ -191,16 +192,20 @@ class Run:
         rc = 0
         for fid, (f, cnt) in sorted(known.items()):
             print("KNOWN-FINDING: property=%s %s [%s; %d occurrences in this run]" % (self.prop, f["what"], fid, cnt))
-        os.makedirs(os.path.join(VERIF, "replays"), exist_ok=True)
+        os.makedirs(os.path.join(OUT, "replays"), exist_ok=True)
         vio_out = []
-        for sig, cnt, case, detail, family in new:
+        MAXREP = 40  # replay files / re-executions are capped; every signature is still listed in the evidence
+        for nv, (sig, cnt, case, detail, family) in enumerate(new):
+            if nv >= MAXREP:
+                vio_out.append({"signature": list(sig), "occurrences": cnt, "replay": None})
+                continue
             doc = {"property": self.prop, "signature": list(sig), "family": family, "case": case,
                    "detail": detail, "occurrences": cnt}
             h = hashlib.sha1(json.dumps(doc["signature"]).encode()).hexdigest()[:10]
-            path = os.path.join(VERIF, "replays", "%s-%s.json" % (self.prop, h))
+            path = os.path.join(OUT, "replays", "%s-%s.json" % (self.prop, h))
             # determinism: re-execute the minimal case before trusting the failure
             status = "reproduced"
-            if self.replay_fn is not None and case is not None:
+            if self.replay_fn is not None and case is not None and nv < 8:
                 try:
                     sigs = self.replay_fn(doc)
                     if tuple(sig) not in set(tuple(s) for s in sigs):
@@ -218,6 +223,8 @@ class Run:
                 print("   signature=%s occurrences=%d detail=%s" % (list(sig), cnt, detail[:300]))
                 rc = max(rc, 1)
             vio_out.append({"signature": list(sig), "occurrences": cnt, "replay": path})
+        if len(new) > MAXREP:
+            print("... and %d more violation signatures (see evidence file)" % (len(new) - MAXREP))
         for sig, detail, case in self.harness_errors[:5]:
             print("HARNESS-ERROR property=%s %s\n%s\ncase=%s" % (self.prop, sig, detail, json.dumps(case, default=str)[:500]))
         if self.harness_errors:
@@ -252,8 +259,8 @@ class Run:
             "wall_s": round(wall, 2),
             "violations": len(new),
         }
-        os.makedirs(os.path.join(VERIF, "evidence"), exist_ok=True)
-        with open(os.path.join(VERIF, "evidence", "%s.json" % self.prop), "w") as f:
+        os.makedirs(os.path.join(OUT, "evidence"), exist_ok=True)
+        with open(os.path.join(OUT, "evidence", "%s.json" % self.prop), "w") as f:
             json.dump(ev, f, indent=1, default=str)
         print("%s tier=%s seed=%d cases=%d nontrivial=%d classes=%d violations=%d known=%d wall=%.1fs%s" % (
             self.prop, self.tier, seed(), self.cases, self.nontrivial, len(self.classes), len(new),
